@@ -189,3 +189,28 @@ impl ConnectionState {
             .map(|(callee_serial, callee_id)| (*callee_serial, callee_id))
     }
 }
+
+#[cfg(feature = "verif-hooks")]
+impl ConnectionState {
+    pub(crate) fn verif_snapshot(&self) -> crate::verif::ConnSnapshot {
+        crate::verif::ConnSnapshot {
+            version: Some(self.version),
+            objects: self.objects.iter().copied().collect(),
+            events: self
+                .events
+                .iter()
+                .map(|(&svc, ids)| (svc, ids.iter().copied().collect()))
+                .collect(),
+            all_events: self.all_events.iter().copied().collect(),
+            subscriptions: self.subscriptions.iter().copied().collect(),
+            senders: self.senders.iter().copied().collect(),
+            receivers: self.receivers.iter().copied().collect(),
+            bus_listeners: self.bus_listeners.iter().copied().collect(),
+            calls: self
+                .calls
+                .iter()
+                .map(|(&caller, (callee, id))| (caller, (*callee, id.verif_raw())))
+                .collect(),
+        }
+    }
+}
